@@ -123,27 +123,31 @@ def gen_custom_streets(rng, unit):
     cap = rng.choice([None, None, 4, 2, 1])
     streets = []
     if kind in ('flop', 'sameobj'):
-        h = rng.randint(1, 4)
+        hts = rng.choice([(phands.StandardHighHand,), (phands.StandardHighHand, phands.StandardLowHand),
+                          (phands.OmahaHoldemHand, phands.OmahaEightOrBetterLowHand),
+                          (phands.GreekHoldemHand,), (phands.StandardHighHand, phands.EightOrBetterLowHand)])
+        deck = rng.choice([Deck.STANDARD, Deck.SHORT_DECK_HOLDEM, Deck.REGULAR])
+        if deck is Deck.SHORT_DECK_HOLDEM:
+            hts = (phands.ShortDeckHoldemHand,)
+        omaha = hts[0] in (phands.OmahaHoldemHand, phands.GreekHoldemHand)
+        h = 2 if hts[0] is phands.GreekHoldemHand else rng.randint(2 if omaha else 1, 4)
         streets.append(Street(rng.random() < 0.3, (False,) * h, 0, False, Opening.POSITION, unit, cap))
         one = Street(True, (), 1, False, Opening.POSITION, unit * rng.choice([1, 2]), cap)
-        streets.append(Street(rng.random() < 0.8, (), rng.randint(1, 3), False, Opening.POSITION, unit, cap))
-        for _ in range(rng.randint(0, 2)):
+        first = rng.randint(1, 3)
+        streets.append(Street(rng.random() < 0.8, (), first, False, Opening.POSITION, unit, cap))
+        # enough cards for a five-card hand (three board cards for the Omaha / Greek composition)
+        more = max(rng.randint(0, 2), (3 if omaha else 5 - h) - first)
+        for _ in range(more):
             if kind == 'sameobj':
                 streets.append(one)          # the very same object twice
             else:
                 streets.append(Street(True, (), 1, False, Opening.POSITION,
                                       unit * rng.choice([1, 2]), cap))
-        deck = rng.choice([Deck.STANDARD, Deck.SHORT_DECK_HOLDEM, Deck.REGULAR])
-        hts = rng.choice([(phands.StandardHighHand,), (phands.StandardHighHand, phands.StandardLowHand),
-                          (phands.OmahaHoldemHand, phands.OmahaEightOrBetterLowHand),
-                          (phands.GreekHoldemHand,), (phands.StandardHighHand, phands.EightOrBetterLowHand)])
-        if deck is Deck.SHORT_DECK_HOLDEM:
-            hts = (phands.ShortDeckHoldemHand,)
     elif kind == 'stud':
         op1 = rng.choice([Opening.LOW_CARD, Opening.HIGH_CARD])
         opn = rng.choice([Opening.HIGH_HAND, Opening.LOW_HAND])
         streets.append(Street(False, (False, True), 0, False, op1, unit, cap))
-        for _ in range(rng.randint(1, 3)):
+        for _ in range(rng.randint(3, 5)):
             streets.append(Street(rng.random() < 0.5, (rng.random() < 0.8,), 0, False, opn,
                                   unit * rng.choice([1, 2]), cap))
         deck = Deck.STANDARD
@@ -162,6 +166,7 @@ def gen_custom_streets(rng, unit):
         streets.append(Street(False, (False, True), 0, False, Opening.POSITION, unit, cap))
         streets.append(Street(True, (), 2, False, Opening.POSITION, unit, cap))
         streets.append(Street(False, (True,), 1, False, Opening.POSITION, unit, cap))
+        streets.append(Street(True, (), 1, False, Opening.POSITION, unit, cap))
         if rng.random() < 0.5:
             streets.append(Street(True, (), 0, True, Opening.POSITION, unit, cap))
         deck = Deck.STANDARD
@@ -236,10 +241,31 @@ def gen_config(rng: random.Random, seed_tag: int, force_variant: str | None = No
                   raw_starting_stacks=stacks, player_count=n, mode=game.mode,
                   starting_board_count=game.starting_board_count, divmod=game.divmod, rake=game.rake)
     meta.update({'n': n, 'antes': ak, 'blinds': bk, 'stacks': sk})
+    meta['deck_ok'] = deck_suffices(kw)
     extra = {'seed': seed_tag, 'warnerr': warnerr, 'divchunk': divchunk,
              'rake_line': (rake_t[0], rake_t[1], 'inf' if rake_t[2] is None else rake_t[2],
                            int(rake_t[3]))}
     return kw, extra, meta
+
+
+def deck_suffices(kw) -> bool:
+    """Conservative test of the C07 side condition 'a deck large enough for the requested
+    deal': every street's cards for every player, all burns and all boards (times three
+    run-outs in cash-game mode) fit into the deck without replenishing.  Draw games and
+    stud games (which fall back to community cards) are designed to replenish."""
+    streets = kw['streets']
+    n = kw['player_count']
+    if any(st.draw_status for st in streets):
+        hole = sum(len(st.hole_dealing_statuses) for st in streets)
+        return n * hole + len(streets) <= len(kw['deck']) - 1
+    hole = sum(len(st.hole_dealing_statuses) for st in streets)
+    board = sum(st.board_dealing_count for st in streets)
+    burns = sum(1 for st in streets if st.card_burning_status)
+    mult = kw['starting_board_count'] * (3 if kw['mode'] == Mode.CASH_GAME and board else 1)
+    if board == 0:
+        # stud: the engine deals the last street as community cards when short
+        return n * (hole - 1) + burns + 1 <= len(kw['deck'])
+    return n * hole + burns * mult + board * mult <= len(kw['deck'])
 
 
 # ---------------------------------------------------------------- operations
@@ -278,7 +304,7 @@ def valid_ops(rng: random.Random, s: State, tune: dict) -> list[tuple[str, float
         if len(s.deck_cards) >= k:
             cs = rng.sample(list(s.deck_cards), k)
             out.append((f'deal_hole {_cards_text(cs)} {j}', 1.5))
-            out.append((f'deal_hole {_cards_text(cs)} -', 0.7))
+            out.append((f'deal_hole {_cards_text(cs[:min(k, pend)])} -', 0.7))
         out.append((f'deal_hole #{pj} {j}', 1))
         if tune.get('unknown'):
             out.append((f'deal_hole {"??" * k} {j}', 0.7))
@@ -337,7 +363,15 @@ def valid_ops(rng: random.Random, s: State, tune: dict) -> list[tuple[str, float
     if s.can_pull_chips():
         out.append(('pull -', 3))
         out.append((f'pull {rng.choice(list(s.chips_pulling_indices))}', 2))
-    return out
+    # keep only what the implementation's own query admits *for these arguments*
+    keep = []
+    for line, w in out:
+        try:
+            if impl.call_can(s, line):
+                keep.append((line, w))
+        except Exception:  # noqa: BLE001
+            keep.append((line, w))
+    return keep
 
 
 def malformed_op(rng: random.Random, s: State) -> str:
